@@ -10,7 +10,9 @@ from .. import core
 BUILTIN = [("signed char", "i8", 7), ("unsigned char", "u8", 8), ("short", "i16", 15), ("unsigned short", "u16", 16), ("int", "i32", 31), ("unsigned", "u32", 32),
            ("long", "i64", 63), ("unsigned long", "u64", 64), ("vf::i128", "i128", 127), ("vf::u128", "u128", 128)]
 ELASTIC = [("cnl::elastic_integer<7>", "e7", 7), ("cnl::elastic_integer<15,unsigned>", "e15u", 15), ("cnl::elastic_integer<24>", "e24", 24), ("cnl::elastic_integer<31>", "e31", 31),
-           ("cnl::elastic_integer<20,signed char>", "e20c", 20), ("cnl::elastic_integer<40>", "e40", 40), ("cnl::elastic_integer<8,unsigned char>", "e8uc", 8), ("cnl::elastic_integer<1>", "e1", 1)]
+           ("cnl::elastic_integer<20,signed char>", "e20c", 20), ("cnl::elastic_integer<40>", "e40", 40), ("cnl::elastic_integer<8,unsigned char>", "e8uc", 8), ("cnl::elastic_integer<1>", "e1", 1),
+           ("cnl::elastic_integer<4,signed char>", "e4c", 4), ("cnl::elastic_integer<12,short>", "e12s", 12), ("cnl::elastic_integer<5,unsigned char>", "e5uc", 5), ("cnl::elastic_integer<16,unsigned>", "e16u", 16),
+           ("cnl::elastic_integer<32,unsigned>", "e32u", 32)]
 OPS = {"C01": [("ADD", "+"), ("SUB", "-"), ("MUL", "*"), ("NEG", "neg")],
        "C02": [("DIV", "/"), ("MOD", "%"), ("QUOT", "quotient")],
        "C03": [("LT", "<"), ("LE", "<="), ("GT", ">"), ("GE", ">="), ("EQ", "=="), ("NE", "!=")]}
@@ -27,7 +29,7 @@ def candidates():
         out.setdefault(d, (prop, 'c01::arith<c01::%s,%s,%d,%s,%d,%d,%d>("%s");' % (op, l[0], le, r[0], re_, radix, plain, d)))
     bases2 = [-70, -33, -17, -8, -1, 0, 1, 16, 32, 70]
     for prop, ops in OPS.items():
-        target = 1500 if prop != "C02" else 1200
+        target = 1800 if prop != "C02" else 1400
         n = 0
         guard = 0
         while n < target and guard < 100000:
@@ -46,7 +48,7 @@ def candidates():
                 diff = rng.choice([0, 0, 1, -1, 2, -2, 3, -3, 7, -7, 8, -8, 15, -15, 16, -16, 24, -24, 31, -31, 33, -40, 47, -62, 63])
                 re_ = max(-70, min(70, le + diff))
             else:
-                le = rng.choice([-8, -6, -3, -2, -1, 0, 1, 2, 4]); re_ = max(-8, min(4, le + rng.choice([-3, -2, -1, 0, 0, 1, 2, 3])))
+                le = rng.choice([-8, -6, -3, -2, -1, 0, 1, 2, 4]); re_ = max(-9, min(6, le + rng.choice([-5, -4, -3, -2, -1, 0, 0, 1, 2, 3, 4, 5])))
             plain = 0
             if radix == 2 and rng.random() < 0.12 and op != "NEG" and op != "QUOT":
                 plain = rng.choice([1, 2])
